@@ -19,14 +19,21 @@ package vikja
 //@ spec fn wfActions(s *State) bool = (forall e: uint32 :: e in s.entityActions ==> s.entityActions[e] != nil)
 //@     && (forall e1: uint32, e2: uint32 :: e1 in s.entityActions && e2 in s.entityActions && s.entityActions[e1] == s.entityActions[e2] ==> e1 == e2)
 //@     && (forall e: uint32, n: string :: hasAction(s, e, n) ==> actionAt(s, e, n) != nil && actionAt(s, e, n).EntityId == e && actionAt(s, e, n).Name == n && actionAt(s, e, n).Timestamp != nil)
+// C03: the action maps of two sessions' vikja states are separate objects (a map that is still nil holds
+// nothing), and what the members of the other session can observe of theirs.
+//@ spec fn sepVikja(a *State, b *State) bool = a != b && (a.entityActions != b.entityActions || a.entityActions == nil)
+//@     && (forall e1: uint32, e2: uint32 :: e1 in a.entityActions && e2 in b.entityActions ==> a.entityActions[e1] != b.entityActions[e2])
+//@ spec fn vikjaSame(o *State) bool = unchanged(o.entityActions) && same_contents(o.entityActions) && (forall e: uint32 :: e in o.entityActions ==> same_contents(o.entityActions[e]))
 //@ spec fn wfVikja(m *Module) bool = m.currentSession != nil ==> m.state != nil && wfActions(m.state) && wfEnts(m.currentSession) && wfParts(m.currentSession)
 
 //@ func (*modules/vikja.State).SetEntityAction
 //@   property C16
 //@   requires wfActions(s) && ea != nil && ea.Timestamp != nil
-//@   modifies s.entityActions, contents(s.entityActions), contents(s.entityActions[ea.EntityId])
+//@   modifies s.entityActions, contents(s.entityActions), contents(s.entityActions[ea.EntityId]) if ea.EntityId in s.entityActions
 //@   allocates
 //@   ensures wfActions(s)
+//@   ensures {C03} (s.entityActions == old(s.entityActions) && s.entityActions != nil) || fresh(s.entityActions)
+//@   ensures {C03} forall e: uint32 :: e in s.entityActions ==> (old(e in s.entityActions) && s.entityActions[e] == old(s.entityActions[e])) || fresh(s.entityActions[e])
 //@   ensures {C16} hasAction(s, ea.EntityId, ea.Name) && actionAt(s, ea.EntityId, ea.Name) == ea
 //@   ensures {C16} forall e: uint32, n: string :: (e != ea.EntityId || n != ea.Name) ==> (hasAction(s, e, n) <==> old(hasAction(s, e, n))) && (hasAction(s, e, n) ==> actionAt(s, e, n) == old(actionAt(s, e, n)))
 
@@ -42,6 +49,7 @@ package vikja
 //@   requires wfActions(s)
 //@   modifies contents(s.entityActions)
 //@   ensures wfActions(s)
+//@   ensures {C03} forall e: uint32 :: e in s.entityActions ==> old(e in s.entityActions) && s.entityActions[e] == old(s.entityActions[e])
 //@   ensures {C16,C06} forall e: uint32, n: string :: (hasAction(s, e, n) <==> (old(hasAction(s, e, n)) && e != entityID)) && (hasAction(s, e, n) ==> actionAt(s, e, n) == old(actionAt(s, e, n)))
 
 //@ func (*modules/vikja.State).EntityActions
@@ -77,6 +85,7 @@ package vikja
 //@   ensures m.currentSession == s && m.currentParticipant == p && m.state != nil
 //@   ensures {C16,C03} "vikja" in s.moduleStates && s.moduleStates["vikja"].(*State) == m.state
 //@   ensures {C16,C03} old("vikja" in s.moduleStates) ==> m.state == old(s.moduleStates["vikja"].(*State)) && same_contents(s.moduleStates)
+//@   ensures {C03} !old("vikja" in s.moduleStates) ==> fresh(m.state)
 
 //@ func (*modules/vikja.Module).handleSetEntityAction
 //@   event
@@ -90,6 +99,7 @@ package vikja
 //@   let St = m.state
 //@   requires wfVikja(m) && respond != nil
 //@   ensures wfVikja(m)
+//@   ensures {C03} forall o: *State :: o != nil && !fresh(o) && old(m.state != nil && sepVikja(m.state, o)) ==> vikjaSame(o) && sepVikja(m.state, o)
 //@   behaviour undecodable:
 //@     assumes !decode_ok(msg)
 //@     ensures result != nil && unchanged_world()
@@ -129,6 +139,7 @@ package vikja
 //@   requires wfVikja(m) && m.currentSession != nil
 //@   ensures wfVikja(m)
 //@   emits []
+//@   ensures {C03} forall o: *State :: o != nil && !fresh(o) && old(m.state != nil && sepVikja(m.state, o)) ==> vikjaSame(o) && sepVikja(m.state, o)
 //@   behaviour undecodable:
 //@     assumes !decode_ok(msg)
 //@     ensures result != nil && unchanged_world()
@@ -149,6 +160,7 @@ package vikja
 //@   requires wfVikja(m) && m.currentSession != nil && respond != nil
 //@   ensures result == nil && unchanged_world()
 //@   emits {C16,C01} [EntityActions(m.state); send(respond, vikjapb.State{Type: vikjapb.MsgType_MSG_TYPE_VIKJA_STATE})]
+//@   ensures {C03} forall o: *State :: o != nil && !fresh(o) && old(m.state != nil && sepVikja(m.state, o)) ==> vikjaSame(o) && sepVikja(m.state, o)
 
 //@ func (*modules/vikja.Module).HandleDisconnect
 //@   property C16, C06
@@ -158,6 +170,7 @@ package vikja
 //@   requires wfVikja(m)
 //@   requires m.currentParticipant != nil ==> m.currentSession != nil
 //@   ensures wfVikja(m)
+//@   ensures {C03} forall o: *State :: o != nil && !fresh(o) && old(m.state != nil && sepVikja(m.state, o)) ==> vikjaSame(o) && sepVikja(m.state, o)
 //@   behaviour unbound:
 //@     assumes P == nil
 //@     ensures unchanged_world()
@@ -168,6 +181,7 @@ package vikja
 //@   disjoint behaviours
 //@   loop 1:
 //@     invariant wfActions(St)
+//@     invariant {C03} unchanged(m.state) && forall o: *State :: o != nil && !fresh(o) && old(m.state != nil && sepVikja(m.state, o)) ==> vikjaSame(o) && sepVikja(m.state, o)
 //@     invariant forall k: uint32 :: k in V ==> k in P.entityIDs
 //@     invariant forall e: uint32, n: string :: (hasAction(St, e, n) <==> (old(hasAction(St, e, n)) && !(e in V && (!(e in S.entities) || !S.entities[e].Persist)))) && (hasAction(St, e, n) ==> actionAt(St, e, n) == old(actionAt(St, e, n)))
 
